@@ -307,11 +307,13 @@ def model_check(work, cfgs, workers=8, timeout=1500):
 
 TIERS = {
     "quick": {"sim": [("Sim_Core.tla", "Sim_Core.cfg", 480, 200), ("Sim_Life.tla", "Sim_Life.cfg", 320, 200)],
-              "edges": [("Edges_Sched.tla", "Edges_Sched.cfg", "esched")],
-              "mc": [("MC_Core.tla", "MC_Core.cfg"), ("MC_Sched.tla", "MC_Sched.cfg")]},
+              "edges": [("Edges_Sched.tla", "Edges_Sched.cfg", "esched"), ("Edges_Delay.tla", "Edges_Delay.cfg", "edelay")],
+              "mc": [("MC_Core.tla", "MC_Core.cfg"), ("MC_Sched.tla", "MC_Sched.cfg"), ("MC_Delay.tla", "MC_Delay.cfg")]},
     "thorough": {"sim": [("Sim_Core.tla", "Sim_Core.cfg", 6000, 300), ("Sim_Life.tla", "Sim_Life.cfg", 4000, 300)],
-                 "edges": [("Edges_Sched.tla", "Edges_Sched.cfg", "esched"), ("Edges_Core.tla", "Edges_Core.cfg", "ecore")],
-                 "mc": [("MC_Core.tla", "MC_Core.cfg"), ("MC_Sched.tla", "MC_Sched.cfg"), ("MC_Core.tla", "MC_Core3.cfg"), ("MC_Life.tla", "MC_Life.cfg")]},
+                 "edges": [("Edges_Sched.tla", "Edges_Sched.cfg", "esched"), ("Edges_Delay.tla", "Edges_Delay.cfg", "edelay"),
+                           ("Edges_Core.tla", "Edges_Core.cfg", "ecore")],
+                 "mc": [("MC_Core.tla", "MC_Core.cfg"), ("MC_Sched.tla", "MC_Sched.cfg"), ("MC_Delay.tla", "MC_Delay.cfg"),
+                        ("MC_Core.tla", "MC_Core3.cfg"), ("MC_Life.tla", "MC_Life.cfg")]},
 }
 
 
@@ -352,13 +354,19 @@ def engine(tier):
             t1 = time.time()
             traces, crashes = execute(driver, scripts, d)
             t2 = time.time()
+            # one monitor pass with every formula: on a tree where everything holds the per-property checks need no further TLC run
+            allnames = sorted({n for v in INVS.values() for n in v})
+            first, nlines = monitor(traces, allnames, work)
+            failing = sorted({v["formula"] for v in first})
+            t2b = time.time()
             mc = model_check(work, [(m, c) for m, c in TIERS[tier]["mc"] if os.path.exists(os.path.join(work, c))])
         with open(os.path.join(d, "scripts.ndjson"), "w") as f:
             for sc in scripts:
                 f.write(json.dumps(sc) + "\n")
         steps = sum(len(s["steps"]) for s in scripts)
         res = {"tier": tier, "seed": seed(), "scripts": len(scripts), "steps": steps, "traces": traces, "crashes": crashes,
-               "mc": mc, "edge_cover": edge_stats, "t_gen": round(t1 - t0, 1), "t_exec": round(t2 - t1, 1), "t_mc": round(time.time() - t2, 1)}
+               "mc": mc, "edge_cover": edge_stats, "all_clean": not first, "first_pass_failing": failing,
+               "trace_lines": nlines, "t_monitor": round(t2b - t2, 1), "t_gen": round(t1 - t0, 1), "t_exec": round(t2 - t1, 1), "t_mc": round(time.time() - t2b, 1)}
         with open(os.path.join(d, "result.json"), "w") as f:
             json.dump(res, f, indent=1)
         # keep the cache small: only the newest few engine results
